@@ -10,6 +10,8 @@ from sa.guards import GuardView, atom_of, names_in
 from sa.index import own_nodes
 from sa.report import Ctx
 
+from .common import generic_sweeps
+
 from .c03 import _minimize_test_polarity
 
 EXPLANATION = (
@@ -103,6 +105,7 @@ def run(ctx: Ctx):
     ctx.ob("C10-O3", "R18 table", f, "working matrix side is max(rows, cols)", len(nd) == 1 and ast.unparse(nd[0]) in ("max(n_rows, n_cols)", "max(n_cols, n_rows)"), "", node=f.node)
     copies = [n for n in own_nodes(f.node) if isinstance(n, ast.Assign) and ast.unparse(n.targets[0]) == f"{wm}[i][j]" and ast.unparse(n.value) == f"{user}[i][j]"]
     ctx.ob("C10-O3", "R18 table", f, "real cells are copied from the user's matrix at the same position", len(copies) == 1, "", node=f.node)
+    generic_sweeps(ctx)
 
 
 # ---------------------------------------------------------------------------------------------
